@@ -36,8 +36,10 @@ impl Binders for PatId {
             | Pattern::Alias(Alias(pat)) | Pattern::Cons(pat) => pat
                 .iter()
                 // components bind left to right: a later binder of the same name wins
-                // (`union` keeps the entries of its receiver)
-                .fold(im::HashMap::new(), |binders, item| item.binders(arena).union(binders)),
+                // (plain `union` keeps the entries of whichever map is larger)
+                .fold(im::HashMap::new(), |binders, item| {
+                    binders.union_with(item.binders(arena), |_earlier, later| later)
+                }),
         }
     }
 }
